@@ -9,6 +9,7 @@ for spec in "$@"; do
     *f) base=${id%f}; wt=/tmp/wt6_$base;;
     *g) base=${id%g}; wt=/tmp/wt7_$base;;
     *h) base=${id%h}; wt=/tmp/wt8_$base;;
+    *i) base=${id%i}; wt=/tmp/wt9_$base;;
   esac
   bash /verif/tools/confirm_seeded.sh $id $wt $tests
 done
